@@ -133,9 +133,9 @@ PROPS = {
                  "non-trivial = at least one event was logged or a crash happened; distinct = distinct seam-trace hash",
                  probes=["logged", "recoveries", "recovery_with_events", "crash_reopen", "crash_inside_recovery", "burst"], fault_probes=["crash_reopen", "crash_inside_recovery"],
                  assumptions=["bbolt's own atomicity is trusted (crash points are between kv calls, no torn pages)", "the harness observes event ids through the kv seam (keys /events/<hex id>)"]),
-    "C17": small("txn", "the space form{Txn,PCR} x condition{ok,fail} x follow-up{ok,fail,absent} x rollback{ok,fail,absent} x caller-cancellation point{none,before,in-cond,between,in-then,in-rollback,after} = 252 cases is enumerated by seed index, three times with step durations below, near and above the ttl; "
+    "C17": small("txn", "the space form{Txn,PCR} x condition{ok,fail} x follow-up{ok,fail,absent} x rollback{ok,fail,absent} x caller-cancellation point{none,before,in-cond,between,in-then,in-rollback,after} = 252 cases is enumerated by seed index, three times with step durations below, near and above the ttl, and each of those with a plain caller context and with the context of a gRPC request (peer info attached); "
                  "non-trivial = every case; distinct = distinct (case, call log) hash",
-                 quick={"seconds": 20, "runs": 1512}, thorough={"seconds": 60, "runs": 15120}, exhaustive_if_runs=756,
+                 quick={"seconds": 20, "runs": 1512}, thorough={"seconds": 60, "runs": 15120}, exhaustive_if_runs=1512,
                  assumptions=["steps are simulated tasks parked at the scheduler; the canceller acts at the named point"]),
     "C18": small("lock", "one evaluation = 2-4 contenders, each with its own client and a fresh lock object per acquisition (as the cluster creates them), performing 4-11 lock / try-lock + hold + unlock rounds on one key with seeded hold times (some longer than the TTL, kept alive by keep-alives) and gaps, under fifo/random/sticky/PCT schedules; a quarter of the histories are convoys (three contenders re-queueing 14-23 times, every wait inside its timeout); "
                  "non-trivial = at least one acquisition; distinct = distinct seam-trace hash",
@@ -220,7 +220,7 @@ MANIFEST_TEXT = {
     "C29": {"text": "Send through the real RPC handler, chunker, SendLargeFile, workload locks and simulated engines: one result per distinct target and file, byte-identical content with the requested owner/mode where the engine accepted the copy, an error where it did not, and the call always returns (bounded virtual time after quiescence). Found and fixed three defects (empty file, repeated target, hang on missing target / engine abort).", "note": _NOTE_S},
     "C36": {"text": "The real retry interceptor over scripted stream breaks with back-off on the virtual clock: the client sees the concatenation of the servers' messages while reopening stays within the budget, every new stream gets the original request, nothing is opened after the caller cancelled, non-watch methods get the raw stream.", "note": _NOTE_S + " GODEBUG=randautoseed=0 pins math/rand's global source used by the back-off jitter."},
     "C16": {"text": "History check against a model of the log file: on every recovery the sequence of handler invocations must equal the uncommitted events in id order, each once (a prefix of it when the process dies inside the recovery); an event is gone exactly when it was handled successfully or declined; ids strictly increase over the whole history including restarts; the real file is compared with the model after every phase.", "note": "Trusted: bbolt's transaction atomicity; crash = death between two kv calls with the file copied at that instant. " + _NOTE_S},
-    "C17": {"text": "Complete enumeration (exhaustive: true in the evidence when all 252 x 3 cases ran) of outcome vectors x cancellation points for utils.Txn and utils.PCR under the simulator: call log and return value are compared with the specification (then iff cond ok; rollback once iff a step failed, with the right flag; first failure returned; rollback context not reached by the caller's cancellation; PCR rolls back only on commit failure).", "note": _NOTE_S},
+    "C17": {"text": "Complete enumeration (exhaustive: true in the evidence when all 252 x 3 x 2 cases ran) of outcome vectors x cancellation points for utils.Txn and utils.PCR under the simulator: call log and return value are compared with the specification (then iff cond ok; rollback once iff a step failed, with the right flag; first failure returned; rollback context not reached by the caller's cancellation; PCR rolls back only on commit failure).", "note": _NOTE_S},
     "C23": {"text": "Differential history check: the same seeded operation sequence runs against the real etcd store over simulated etcd and the real Redis store over simulated Redis; every operation must succeed or fail on both, return the same result, and leave the same complete read-back; a create that fails must leave the read-back unchanged. Found and fixed five divergences (see known_findings.json); two remain recorded (Redis SetNodeStatus without entity check - pinned by an existing test; duplicate ids in GetWorkloads).", "note": _NOTE_S + " Sequential histories on a virtual clock, no injected faults: the property has no schedule in it; the simulator contributes the two in-bubble servers and time. miniredis stands in for Redis."},
     "C24": {"text": "Model-based history check on both backends: list and deploy-count queries return exactly the workloads created under the queried application / entrypoint / node, names parse back. Holds for names that are prefixes of each other or contain '_'; names containing '/' (both backends) or glob characters (Redis) break isolation - recorded findings matched by the kind of names in play, so a violation among plain names is still reported.", "note": _NOTE_S + " The status stream is driven on the etcd store only (1-2 streams stay open during a history and every status report is checked against what they deliver); the Redis stream needs keyspace notifications, which the simulated Redis does not provide."},
     "C25": {"text": "Status reports with TTLs on the virtual clock against a reference model, on both backends: accepted only for existing entities (TTL>0), visible until TTL after the latest report or removal of the entity, repeated reports extend, TTL 0 stays. Found and fixed: node status outlived the node (both backends). Recorded: Redis accepts a node status for a missing node.", "note": _NOTE_S},
